@@ -87,7 +87,8 @@ class Checker:
             i, j = step["i"], step["j"]
             if self.w.total[j] > 0 and self.w.total[i] > self.w.total[j]:
                 self.nt.add("merge_nonempty")
-        for i in sorted(touched):
+        # every sketch after every step: an operation on one sketch must not leak into another
+        for i in range(self.w.n):
             self.check_sketch(i)
 
     def flags(self):
